@@ -400,10 +400,12 @@ MANIFEST = {
              "encoder's stream), strong_convergence and read = 'latest event wins, add wins ties' for every history. AWORSet: compare is the "
              "vector-clock order independently of iteration order, merge_comm, merge_idem, write_inflationary, order_irrelevant, gob_preserves, "
              "read = add entries, reachable_wf; strong convergence and associativity are REFUTED (aworset_convergence_refuted, "
-             "aworset_merge_assoc_refuted: witnesses by vm_compute, replayed on the Go code) and recorded as known findings."),
+             "aworset_merge_assoc_refuted: witnesses by vm_compute, replayed on the Go code) and recorded as known findings; "
+             "positive partial theorems aworset_convergence_partial / aworset_read_partial for histories without concurrent updates of one "
+             "element, and aworset_merge_assoc_partial on states with comparable entries."),
     "level_note": ("Trusted: Coq kernel; the hand-written model (tie = differential testing on 240 quick / 6000 thorough histories, so a code "
                    "change is caught only if a generated history reaches it); tla.Value identifiers abstracted to Z; gob primitives; time.Now as oracle. "
-                   "AWORSet: no positive convergence theorem (it is false); failures on elements with a concurrent add/remove pair plus a third "
+                   "AWORSet: convergence is false in general (partial theorems only); failures on elements with a concurrent add/remove pair plus a third "
                    "update are reported as KNOWN-FINDING, every other failure (commutativity, idempotence, inflation, any failure without such a "
                    "pair) is a VIOLATION. Equivalent mutant observed: AWORSet.Read ignoring remMap (add and remove maps are disjoint on reachable states)."),
 }
